@@ -667,10 +667,8 @@ func (tt *TermTable) Extract(x *Term, hi, lo int) *Term {
 			return tt.Extract(x.a[0], hi, lo)
 		}
 	case OpAnd, OpOr, OpXor:
-		// distribute over bitwise ops when it simplifies (one side constant)
-		if x.a[1].op == OpConst || x.a[0].op == OpConst {
-			return tt.Bin(x.op, tt.Extract(x.a[0], hi, lo), tt.Extract(x.a[1], hi, lo))
-		}
+		// bitwise operations commute with extraction
+		return tt.Bin(x.op, tt.Extract(x.a[0], hi, lo), tt.Extract(x.a[1], hi, lo))
 	case OpNot:
 		return tt.Un(OpNot, tt.Extract(x.a[0], hi, lo))
 	case OpAdd, OpSub, OpMul:
